@@ -456,3 +456,371 @@ Example C10_example_rec_identity :
   forall rho, net_value 0 1 Nat.add Nat.mul (fst cs') exr_tbl rho = net_value 0 1 Nat.add Nat.mul (fst exr_cs) exr_tbl rho.
 Proof. exact (conj exr_hyps exr_conclusion). Qed.
 Print Assumptions C10_example_rec_identity.
+(* ======================================================================================================== *)
+(* [ext-C10E] The error bound of the last clause of the property, as far as it is a theorem.  Three layers:
+   (B) what the selection rule implies for the size of what it discards (here, Q spectra; Trunc/ErrorSelect*.v);
+   (C) accumulation over the literal sequence of truncating splits of a tree routine (TTN/TruncError*.v), over an
+       ABSTRACT distance;
+   (A) one truncated SVD splitting: squared Frobenius error = discarded squared weight, exactly (MathComp matrices,
+       Trunc/ErrorAlg*.v) -- placed last in this file, inside a module, because it imports MathComp.
+   What is NOT proved: that the centre-gauge contracts of (C) hold for the states the routines produce (it is the
+   content of canonical form, C03, at the level of values), and the existence of square roots / the passage from
+   squared errors to the norm of the property text; the end-to-end bound stays validated against the dense oracle. *)
+From PTN Require Import Trunc.ErrorSelect Trunc.ErrorSelectProofs.
+Local Open Scope Q_scope.
+
+(* (B) `discarded p s` = the second component of truncate_singular_values; `sq_error p s` = its squared weight, the
+   squared error of one truncation without renormalisation by (A).  `cap_not_binding b n`: max_bond_dim = inf or >= n. *)
+
+(* sum mode, finite total_tol = t (no sign, order or positivity assumption on anything): if max_bond_dim does not cut
+   deeper than the tolerance criterion, the squared error is <= t^2, times the total squared weight when normalising *)
+Theorem C10_sum_mode_error_bound : forall (p : params) (s : list Q) (t : Q),
+  sum_trunc p = true -> s <> [] -> bond_ok (max_bond p) -> total_tol p = Fin t ->
+  cap_not_binding (max_bond p) (sum_truncation_index s (total_tol p) (sum_renorm p)) ->
+  (sum_renorm p = false -> sq_error p s <= t * t) /\
+  (sum_renorm p = true -> sq_error p s <= t * t * sumsq s).
+Proof. exact (fun p s t Hm Hne Hb => sum_error_bound p s Hm Hne Hb t). Qed.
+Print Assumptions C10_sum_mode_error_bound.
+
+(* ... and that hypothesis is necessary: when max_bond_dim = m cuts deeper, the weight of what is discarded (as the
+   code measures it: divided by the total when normalising) EXCEEDS total_tol**2 in the float comparison *)
+Theorem C10_sum_mode_cap_binding_exceeds : forall (p : params) (s : list Q) (m : nat),
+  sum_trunc p = true -> s <> [] -> bond_ok (max_bond p) -> max_bond p = BFin m ->
+  (m < sum_truncation_index s (total_tol p) (sum_renorm p))%nat ->
+  discarded p s = skipn m s /\
+  ext_gtb (Fin (tail_weight s (sum_renorm p) m)) (ext_sq (total_tol p)) = true.
+Proof. exact sum_cap_binding_exceeds_m. Qed.
+Print Assumptions C10_sum_mode_cap_binding_exceeds.
+
+(* quirk of the code that the bound has to live with: total_tol = nan, -inf or +inf in sum mode (all accepted by the
+   parameter validation) makes total_tol**2 nan or +inf, so everything but the first value is discarded, whatever
+   its weight -- there is no finite bound then *)
+Theorem C10_sum_mode_nonfinite_tol_keeps_one : forall (p : params) (s : list Q),
+  sum_trunc p = true -> s <> [] -> bond_ok (max_bond p) ->
+  total_tol p = NaN \/ total_tol p = NegInf \/ total_tol p = PosInf ->
+  select p s = (firstn 1 s, skipn 1 s).
+Proof. exact sum_nonfinite_keeps_one. Qed.
+Print Assumptions C10_sum_mode_nonfinite_tol_keeps_one.
+
+(* value mode, finite rel_tol and total_tol: with thr = max(rel_tol*s[0], total_tol) (Python max on the float product)
+   every discarded value is <= thr, their sum is <= (number discarded) * thr, and for a non-negative spectrum the squared
+   error is <= (number discarded) * thr^2 and <= (sum of the discarded values)^2 -- again when max_bond_dim does not bind *)
+Theorem C10_value_mode_error_bound : forall (p : params) (s0 : Q) (r : list Q) (rel tot : Q),
+  sum_trunc p = false -> descending (s0 :: r) -> bond_ok (max_bond p) ->
+  rel_tol p = Fin rel -> total_tol p = Fin tot ->
+  let s := s0 :: r in
+  let thr := if Qltb (rel * s0) tot then tot else rel * s0 in
+  cap_not_binding (max_bond p) (length (filter (above (Fin thr)) s)) ->
+  let d := discarded p s in
+  Forall (fun x => x <= thr) d /\
+  qsum d <= inject_Z (Z.of_nat (length d)) * thr /\
+  (Forall (fun x => 0 <= x) s -> sq_error p s <= inject_Z (Z.of_nat (length d)) * (thr * thr) /\
+                                 sq_error p s <= qsum d * qsum d).
+Proof. exact value_error_bound. Qed.
+Print Assumptions C10_value_mode_error_bound.
+
+(* the same for any tolerances in terms of the cutoff c = max(rel_tol*s[0], total_tol) the code computes: nothing
+   strictly above c is discarded; for a finite c = t every discarded value is <= t (total_tol = -inf: c = rel_tol*s[0]) *)
+Theorem C10_value_mode_discarded_not_above : forall (p : params) (s0 : Q) (r : list Q),
+  sum_trunc p = false -> descending (s0 :: r) -> bond_ok (max_bond p) ->
+  let s := s0 :: r in
+  let c := cutoff (rel_tol p) (total_tol p) s0 in
+  cap_not_binding (max_bond p) (length (filter (above c) s)) ->
+  Forall (fun x => above c x = false) (discarded p s) /\
+  (forall t, c = Fin t -> Forall (fun x => x <= t) (discarded p s)) /\
+  (forall rel, rel_tol p = Fin rel -> total_tol p = NegInf -> c = Fin (rel * s0)).
+Proof. exact value_discarded_summary. Qed.
+Print Assumptions C10_value_mode_discarded_not_above.
+
+(* quirk: a nan cutoff (rel_tol = nan; rel_tol = +-inf with s[0] = 0) keeps one value and discards the rest unseen *)
+Theorem C10_value_mode_nan_cutoff_keeps_one : forall (p : params) (s0 : Q) (r : list Q),
+  sum_trunc p = false -> descending (s0 :: r) -> bond_ok (max_bond p) ->
+  cutoff (rel_tol p) (total_tol p) s0 = NaN -> select p (s0 :: r) = (firstn 1 (s0 :: r), skipn 1 (s0 :: r)).
+Proof. exact value_nan_keeps_one. Qed.
+Print Assumptions C10_value_mode_nan_cutoff_keeps_one.
+
+(* without renormalisation the result of truncate_singular_values is the split s = kept ++ discarded itself *)
+Theorem C10_no_renorm_split : forall (p : params) (s : list Q),
+  s <> [] -> renorm p = false -> descending s -> bond_ok (max_bond p) ->
+  exists kept, truncate p s = Some (kept, discarded p s) /\ s = kept ++ discarded p s /\ kept <> [].
+Proof. exact truncate_no_renorm_split. Qed.
+Print Assumptions C10_no_renorm_split.
+
+(* non-vacuity: the sum rule exactly at its boundary (discarded squared weight = total_tol^2 = 9/4, three values go),
+   without normalisation, and = total_tol^2 * total weight = 9/25 * 25 with it; the value rule with a tie at the threshold 1 = max(1/2 * 2, 1/2) *)
+Example C10_example_sum_error :
+  let p := {| max_bond := BInf; rel_tol := Fin 0; total_tol := Fin (3#2);
+              renorm := false; sum_trunc := true; sum_renorm := false |} in
+  let s := [2; 1; 1; 1#2] in
+  select p s = ([2], [1; 1; 1#2]) /\ Qeq_bool (sq_error p s) ((3#2) * (3#2)) = true /\
+  sum_truncation_index s (total_tol p) (sum_renorm p) = 1%nat /\
+  let p' := {| max_bond := BFin 3; rel_tol := Fin 0; total_tol := Fin (3#5);
+               renorm := false; sum_trunc := true; sum_renorm := true |} in
+  select p' [4; 3] = ([4], [3]) /\ Qeq_bool (sq_error p' [4; 3]) ((3#5) * (3#5) * sumsq [4; 3]) = true /\
+  sum_truncation_index [4; 3] (total_tol p') (sum_renorm p') = 1%nat.
+Proof. vm_compute. repeat split; reflexivity. Qed.
+Print Assumptions C10_example_sum_error.
+
+Example C10_example_value_error :
+  let p := {| max_bond := BFin 2; rel_tol := Fin (1#2); total_tol := Fin (1#2);
+              renorm := false; sum_trunc := false; sum_renorm := false |} in
+  select p [2; 3#2; 1; 1; 1#4] = ([2; 3#2], [1; 1; 1#4]) /\
+  length (filter (above (Fin 1)) [2; 3#2; 1; 1; 1#4]) = 2%nat /\
+  Qeq_bool (sq_error p [2; 3#2; 1; 1; 1#4]) (33#16) = true.
+Proof. vm_compute. repeat split; reflexivity. Qed.
+Print Assumptions C10_example_value_error.
+Local Close Scope Q_scope.
+
+(* (C) accumulation along the literal operation trace (TTN/TruncError.v, TTN/TruncErrorProofs.v).  ABSTRACT setting:
+   `V` any type of states, `den : store -> V` what a store denotes, `D` any type of distances with `dle`, `dzero`, `dadd`
+   and `dist : V -> V -> D` satisfying `metric_laws` (dle reflexive and transitive, dadd monotone, dist x x <= 0,
+   triangle inequality) -- nothing else: no norm, no square root, no field is constructed (instantiate D with the reals and
+   dist with the 2-norm distance of the dense states to read the statements numerically).
+   `is_trunc_split o`: o is a split of kind 2 (given bond dimension) -- the truncated SVD of
+   contract_and_split_with_parent, the projector pair of recursive_truncation; `trunc_sum 0 + eps s ops`: the sum of
+   `eps s_i o_i` over the accepted truncating splits o_i of the run, s_i the store o_i is applied to.
+   `step_contract dle dist den eps s o s'` -- the CONTRACT per step (a hypothesis here, validated numerically by the dense
+   oracle of harness/props/c10.py only end to end): a truncating split moves the denoted state by at most eps s o, every
+   other operation (contraction, QR split, identity insertion, tensor access) does not move it.  By (A) the contract holds
+   for a truncating split with eps = (square root of) the discarded squared weight of the spectrum of the tensor being split
+   as soon as the rest of the network acts on that tensor as an isometry / co-isometry, i.e. the network is in canonical form
+   with the centre at the node that is split: svd_truncation moves the centre there before every split, so for it the
+   contract is the correctness of move_orthogonalization_center (C03) on a tree whose recorded centre is a true centre -- it
+   FAILS for a tree whose orthogonality_center_id is stale (tensors replaced behind the bookkeeping), where the global change
+   can exceed the local discarded weight.  recursive_truncation is in that gauge only at the root; below it the environment
+   of a split has Lipschitz constant <= the largest singular value of the projected parent tensors (<= the norm of the
+   state), which is where the factor max(1, norm of the state) of the property text enters: `..._scaled` below. *)
+Local Close Scope Q_scope.
+From PTN Require Import TTN.TruncError TTN.TruncErrorProofs.
+
+Theorem C10_svd_truncation_error_accumulates :
+  forall (V D : Type) (dle : D -> D -> Prop) (dzero : D) (dadd : D -> D -> D) (dist : V -> V -> D),
+  metric_laws dle dzero dadd dist ->
+  forall (den : store -> V) (eps : store -> op -> D) (kd : id -> nat) (rid : id) (cs cs' : cstore),
+  wf (fst cs) -> aget rid (nodes (fst cs)) = None -> svd_truncation kd rid cs = Some cs' ->
+  along (step_contract dle dist den eps) (fst cs) (svd_truncation_ops kd rid cs) ->
+  dle (dist (den (fst cs)) (den (fst cs'))) (trunc_sum dzero dadd eps (fst cs) (svd_truncation_ops kd rid cs)).
+Proof. exact (@svd_truncation_error). Qed.
+Print Assumptions C10_svd_truncation_error_accumulates.
+
+Theorem C10_recursive_truncation_error_accumulates :
+  forall (V D : Type) (dle : D -> D -> Prop) (dzero : D) (dadd : D -> D -> D) (dist : V -> V -> D),
+  metric_laws dle dzero dadd dist ->
+  forall (den : store -> V) (eps : store -> op -> D) (tmp : tmpids) (kd : id -> nat) (rid : id) (cs cs' : cstore),
+  wf (fst cs) -> aget rid (nodes (fst cs)) = None -> tmp_fresh tmp (fst cs) -> tmp_inj tmp ->
+  recursive_truncation tmp kd rid cs = Some cs' ->
+  along (step_contract dle dist den eps) (fst cs) (recursive_truncation_ops tmp kd rid cs) ->
+  dle (dist (den (fst cs)) (den (fst cs')))
+      (trunc_sum dzero dadd eps (fst cs) (recursive_truncation_ops tmp kd rid cs)).
+Proof. exact (@recursive_truncation_error). Qed.
+Print Assumptions C10_recursive_truncation_error_accumulates.
+
+(* how many terms the bound for svd_truncation has: the run performs exactly one truncating split per node of
+   update_path[:-1] (`ntrunc` = number of kind-2 splits of an operation list), i.e. by C10_svd_path_coverage exactly one per
+   (child, parent) bond of the tree *)
+Theorem C10_svd_truncation_one_truncating_split_per_bond : forall (kd : id -> nat) (rid : id) (cs cs' : cstore),
+  wf (fst cs) -> aget rid (nodes (fst cs)) = None -> svd_truncation kd rid cs = Some cs' ->
+  ntrunc (svd_truncation_ops kd rid cs) = length (removelast (linearise (fst cs))).
+Proof. exact svd_truncation_ntrunc. Qed.
+Print Assumptions C10_svd_truncation_one_truncating_split_per_bond.
+
+(* the form of the property text, "sum of the discarded weights times max(1, norm of the state)": `scale` is the
+   multiplication by that constant -- any superadditive map D -> D with 0 <= scale 0 *)
+Theorem C10_recursive_truncation_error_accumulates_scaled :
+  forall (V D : Type) (dle : D -> D -> Prop) (dzero : D) (dadd : D -> D -> D) (dist : V -> V -> D),
+  metric_laws dle dzero dadd dist ->
+  forall (den : store -> V) (scale : D -> D) (eps : store -> op -> D) (tmp : tmpids) (kd : id -> nat) (rid : id) (cs cs' : cstore),
+  (forall a b, dle (dadd (scale a) (scale b)) (scale (dadd a b))) -> dle dzero (scale dzero) ->
+  wf (fst cs) -> aget rid (nodes (fst cs)) = None -> tmp_fresh tmp (fst cs) -> tmp_inj tmp ->
+  recursive_truncation tmp kd rid cs = Some cs' ->
+  along (step_contract dle dist den (fun s o => scale (eps s o))) (fst cs) (recursive_truncation_ops tmp kd rid cs) ->
+  dle (dist (den (fst cs)) (den (fst cs')))
+      (scale (trunc_sum dzero dadd eps (fst cs) (recursive_truncation_ops tmp kd rid cs))).
+Proof. exact (@recursive_truncation_error_scaled). Qed.
+Print Assumptions C10_recursive_truncation_error_accumulates_scaled.
+
+(* the general principle, for any run of edit operations and any bound per accepted step *)
+Theorem C10_error_accumulates_along_a_run :
+  forall (V D : Type) (dle : D -> D -> Prop) (dzero : D) (dadd : D -> D -> D) (dist : V -> V -> D),
+  metric_laws dle dzero dadd dist ->
+  forall (den : store -> V) (w : store -> op -> D) (ops : list op) (s s' : store),
+  run s ops = (s', map (fun _ => true) ops) /\ ops_ok s ops /\ forallb is_edit_op ops = true ->
+  along (fun s o s' => dle (dist (den s) (den s')) (w s o)) s ops ->
+  dle (dist (den s) (den s')) (run_sum dzero dadd w s ops).
+Proof. exact (@accumulate_along). Qed.
+Print Assumptions C10_error_accumulates_along_a_run.
+
+(* one node of recursive_truncation: its projectors are all computed from the SAME (not yet projected) tensor, so the
+   per-split errors are distances from the untruncated state; maps that do not increase distances (orthogonal projectors on
+   different legs), applied one after the other, move x by at most the sum of what each of them moves x *)
+Theorem C10_nonexpansive_steps_accumulate :
+  forall (V D : Type) (dle : D -> D -> Prop) (dzero : D) (dadd : D -> D -> D) (dist : V -> V -> D),
+  metric_laws dle dzero dadd dist ->
+  forall (fs : list (V -> V)) (x : V),
+  Forall (fun f => forall y z, dle (dist (f y) (f z)) (dist y z)) fs ->
+  dle (dist x (fold_left (fun y f => f y) fs x)) (fold_left (fun a f => dadd (dist x (f x)) a) fs dzero).
+Proof. exact (@nonexpansive_composition). Qed.
+Print Assumptions C10_nonexpansive_steps_accumulate.
+
+(* non-vacuity: distances in nat, a store "denotes" the number of kind-2 kernel definitions it has recorded: on the concrete
+   svd_truncation and recursive_truncation runs of the examples above every step satisfies the contract with eps = 1, the
+   state does move (by 2), and the bound is 2 *)
+Example C10_example_accumulation :
+  metric_laws le 0 Nat.add ex_dist /\
+  (along (step_contract le ex_dist ex_den (fun _ _ => 1)) (fst exs_cs) (svd_truncation_ops exs_kd 99 exs_cs) /\
+   trunc_sum 0 Nat.add (fun _ _ => 1) (fst exs_cs) (svd_truncation_ops exs_kd 99 exs_cs) = 2 /\
+   (exists cs', svd_truncation exs_kd 99 exs_cs = Some cs' /\ ex_dist (ex_den (fst exs_cs)) (ex_den (fst cs')) = 2)) /\
+  (along (step_contract le ex_dist ex_den (fun _ _ => 1)) (fst exr_cs) (recursive_truncation_ops exr_tmp exr_kd 99 exr_cs) /\
+   trunc_sum 0 Nat.add (fun _ _ => 1) (fst exr_cs) (recursive_truncation_ops exr_tmp exr_kd 99 exr_cs) = 2 /\
+   (exists cs', recursive_truncation exr_tmp exr_kd 99 exr_cs = Some cs' /\ ex_dist (ex_den (fst exr_cs)) (ex_den (fst cs')) = 2)).
+Proof. exact (conj ex_metric_laws (conj ex_svd_contract ex_rec_contract)). Qed.
+Print Assumptions C10_example_accumulation.
+
+(* -------------------------------------------------------------------------------------------------------- *)
+(* (A) ONE truncated singular value splitting: squared Frobenius error = discarded squared weight, exactly
+   (Trunc/ErrorAlg.v, Trunc/ErrorAlgProofs.v; MathComp matrices, kept inside a module so that its notations do not
+   leak).  A tensor split along a leg bipartition is the (u-legs x v-legs) matrix A = U diag(s) Vh that numpy's svd
+   factorises; `truncated_tensor_svd` returns u[..., :k], s[:k], vh[:k, ...], whose product is Ak below (r = k + d,
+   d values discarded).  The only hypotheses are the SVD's own: U^T U = 1 and Vh Vh^T = 1 (nothing about the order,
+   sign or distinctness of the s_j, any shape, any k).  Scalars: ANY commutative ring with transposes standing for
+   adjoints (exact for real tensors), and any numClosedFieldType (e.g. the algebraic complex numbers) with conjugate
+   transposes `^*t`; both are instances of one proof over a commutative ring with a conjugation morphism f
+   (`adj f A` = transpose of the f-image, `frob2 f A = \tr (adj f A *m A)`, `weight2 f s = \sum_j f(s_j) s_j`).
+   No square root is taken: the statements are about SQUARED norms. *)
+From mathcomp Require all_ssreflect all_algebra.
+From PTN Require Trunc.ErrorAlg Trunc.ErrorAlgProofs.
+Module C10_error_algebra.
+Import mathcomp.ssreflect.all_ssreflect mathcomp.algebra.all_algebra.
+Import GRing.Theory Num.Theory.
+Import PTN.Trunc.ErrorAlg PTN.Trunc.ErrorAlgProofs.
+Local Open Scope ring_scope.
+
+(* real reading, the shape of the code: sliced factors *)
+Theorem C10_split_error_exact : forall (R : comRingType) (m k d n : nat)
+    (U : 'M[R]_(m, k + d)) (s : 'rV[R]_(k + d)) (V : 'M[R]_(k + d, n)),
+  U^T *m U = 1%:M -> V *m V^T = 1%:M ->
+  let A := U *m diag_mx s *m V in
+  let Ak := lsubmx U *m diag_mx (lsubmx s) *m usubmx V in
+  \tr ((A - Ak)^T *m (A - Ak)) = \sum_j (rsubmx s) 0 j ^+ 2.
+Proof. exact trunc_error_transpose. Qed.
+Print Assumptions C10_split_error_exact.
+
+(* the same with the cut k as a number: zeroing the diagonal entries of index >= k; every k, every shape *)
+Theorem C10_split_error_exact_zeroed : forall (R : comRingType) (m r n : nat)
+    (U : 'M[R]_(m, r)) (s : 'rV[R]_r) (V : 'M[R]_(r, n)) (k : nat),
+  U^T *m U = 1%:M -> V *m V^T = 1%:M ->
+  let A := U *m diag_mx s *m V in
+  let Ak := U *m diag_mx (\row_j (if (j < k)%N then s 0 j else 0)) *m V in
+  \tr ((A - Ak)^T *m (A - Ak)) = \sum_(j < r | (k <= j)%N) s 0 j ^+ 2.
+Proof. exact trunc_error_transpose_zeroed. Qed.
+Print Assumptions C10_split_error_exact_zeroed.
+
+(* slicing the factors IS zeroing the tail of the spectrum (no hypothesis) *)
+Theorem C10_sliced_product_is_zeroed_product : forall (R : comRingType) (m k d n : nat)
+    (U : 'M[R]_(m, k + d)) (s : 'rV[R]_(k + d)) (V : 'M[R]_(k + d, n)),
+  lsubmx U *m diag_mx (lsubmx s) *m usubmx V = U *m diag_mx (\row_j (if (j < k)%N then s 0 j else 0)) *m V.
+Proof. exact (fun R => @svd_trunc_zeroed R). Qed.
+Print Assumptions C10_sliced_product_is_zeroed_product.
+
+(* contr_truncated_svd_splitting: the singular values absorbed into V (a = 1, b = s), into U (a = s, b = 1) or
+   half into each (a = b with a_j^2 = s_j) -- the product of the two returned tensors is the same U diag(s) Vh *)
+Theorem C10_absorbed_singular_values : forall (R : comRingType) (m r n : nat)
+    (U : 'M[R]_(m, r)) (a b s : 'rV[R]_r) (V : 'M[R]_(r, n)),
+  (forall j, a 0 j * b 0 j = s 0 j) -> (U *m diag_mx a) *m (diag_mx b *m V) = U *m diag_mx s *m V.
+Proof. exact (fun R => @contr_prod R). Qed.
+Print Assumptions C10_absorbed_singular_values.
+
+(* complex reading *)
+Theorem C10_split_error_exact_complex : forall (C : numClosedFieldType) (m k d n : nat)
+    (U : 'M[C]_(m, k + d)) (s : 'rV[C]_(k + d)) (V : 'M[C]_(k + d, n)),
+  (map_mx conjC U)^T *m U = 1%:M -> V *m (map_mx conjC V)^T = 1%:M ->
+  let A := U *m diag_mx s *m V in
+  let Ak := lsubmx U *m diag_mx (lsubmx s) *m usubmx V in
+  \tr ((map_mx conjC (A - Ak))^T *m (A - Ak)) = \sum_j `|(rsubmx s) 0 j| ^+ 2.
+Proof. exact trunc_error_complex. Qed.
+Print Assumptions C10_split_error_exact_complex.
+
+(* centre gauge: when the rest of the network acts on the split tensor as an isometry on the row side and a
+   co-isometry on the column side (what the canonical form with the centre at the split node provides), the
+   squared change of the WHOLE state equals the local one *)
+Theorem C10_split_error_in_isometric_context : forall (R : comRingType) (p q m k d n : nat)
+    (Wl : 'M[R]_(p, m)) (Wr : 'M[R]_(n, q)) (U : 'M[R]_(m, k + d)) (s : 'rV[R]_(k + d)) (V : 'M[R]_(k + d, n)),
+  Wl^T *m Wl = 1%:M -> Wr *m Wr^T = 1%:M -> U^T *m U = 1%:M -> V *m V^T = 1%:M ->
+  let A := U *m diag_mx s *m V in
+  let Ak := lsubmx U *m diag_mx (lsubmx s) *m usubmx V in
+  let E := Wl *m A *m Wr - Wl *m Ak *m Wr in
+  \tr (E^T *m E) = \sum_j (rsubmx s) 0 j ^+ 2.
+Proof. exact trunc_error_transpose_context. Qed.
+Print Assumptions C10_split_error_in_isometric_context.
+
+Theorem C10_split_error_in_isometric_context_complex : forall (C : numClosedFieldType) (p q m k d n : nat)
+    (Wl : 'M[C]_(p, m)) (Wr : 'M[C]_(n, q)) (U : 'M[C]_(m, k + d)) (s : 'rV[C]_(k + d)) (V : 'M[C]_(k + d, n)),
+  (map_mx conjC Wl)^T *m Wl = 1%:M -> Wr *m (map_mx conjC Wr)^T = 1%:M ->
+  (map_mx conjC U)^T *m U = 1%:M -> V *m (map_mx conjC V)^T = 1%:M ->
+  let A := U *m diag_mx s *m V in
+  let Ak := lsubmx U *m diag_mx (lsubmx s) *m usubmx V in
+  let E := Wl *m A *m Wr - Wl *m Ak *m Wr in
+  \tr ((map_mx conjC E)^T *m E) = \sum_j `|(rsubmx s) 0 j| ^+ 2.
+Proof. exact trunc_error_complex_context. Qed.
+Print Assumptions C10_split_error_in_isometric_context_complex.
+
+(* the projector pair of recursive_truncation: P = u[..., :k] of the SVD of the node tensor matricised (child leg) x (other
+   legs); the inserted pair (conj(P), P^T) multiplies that tensor by P P^dagger on the child leg.  The result IS the product
+   of the truncated factors, so the squared change is again the discarded squared weight *)
+Theorem C10_projector_pair_error_exact : forall (R : comRingType) (m k d n : nat)
+    (U : 'M[R]_(m, k + d)) (s : 'rV[R]_(k + d)) (V : 'M[R]_(k + d, n)),
+  U^T *m U = 1%:M -> V *m V^T = 1%:M ->
+  let A := U *m diag_mx s *m V in
+  let P := lsubmx U in
+  P *m P^T *m A = P *m diag_mx (lsubmx s) *m usubmx V /\
+  \tr ((A - P *m P^T *m A)^T *m (A - P *m P^T *m A)) = \sum_j (rsubmx s) 0 j ^+ 2.
+Proof. exact projector_error_transpose. Qed.
+Print Assumptions C10_projector_pair_error_exact.
+
+Theorem C10_projector_pair_error_exact_complex : forall (C : numClosedFieldType) (m k d n : nat)
+    (U : 'M[C]_(m, k + d)) (s : 'rV[C]_(k + d)) (V : 'M[C]_(k + d, n)),
+  (map_mx conjC U)^T *m U = 1%:M -> V *m (map_mx conjC V)^T = 1%:M ->
+  let A := U *m diag_mx s *m V in
+  let P := lsubmx U in
+  P *m (map_mx conjC P)^T *m A = P *m diag_mx (lsubmx s) *m usubmx V /\
+  \tr ((map_mx conjC (A - P *m (map_mx conjC P)^T *m A))^T *m (A - P *m (map_mx conjC P)^T *m A))
+    = \sum_j `|(rsubmx s) 0 j| ^+ 2.
+Proof. exact projector_error_complex. Qed.
+Print Assumptions C10_projector_pair_error_exact_complex.
+
+(* over the complex numbers, where squared norms are ordered: without renormalisation a truncation never lengthens the tensor *)
+Theorem C10_truncation_never_lengthens : forall (C : numClosedFieldType) (m k d n : nat)
+    (U : 'M[C]_(m, k + d)) (s : 'rV[C]_(k + d)) (V : 'M[C]_(k + d, n)),
+  (map_mx conjC U)^T *m U = 1%:M -> V *m (map_mx conjC V)^T = 1%:M ->
+  let A := U *m diag_mx s *m V in
+  let Ak := lsubmx U *m diag_mx (lsubmx s) *m usubmx V in
+  \tr ((map_mx conjC A)^T *m A) = \tr ((map_mx conjC Ak)^T *m Ak) + \sum_j `|(rsubmx s) 0 j| ^+ 2 /\
+  \tr ((map_mx conjC Ak)^T *m Ak) <= \tr ((map_mx conjC A)^T *m A).
+Proof. exact trunc_norm_le_complex. Qed.
+Print Assumptions C10_truncation_never_lengthens.
+
+(* the common generalisation, and Pythagoras: |A|^2 = |Ak|^2 + discarded weight, |Ak|^2 = kept weight (so a
+   truncation without renormalisation never lengthens the tensor) *)
+Theorem C10_split_error_exact_general : forall (R : comRingType) (f : {rmorphism R -> R}) (m k d n : nat)
+    (U : 'M[R]_(m, k + d)) (s : 'rV[R]_(k + d)) (V : 'M[R]_(k + d, n)),
+  adj f U *m U = 1%:M -> V *m adj f V = 1%:M ->
+  frob2 f (svd_prod U s V - svd_trunc U s V) = weight2 f (rsubmx s) /\
+  frob2 f (svd_prod U s V) = frob2 f (svd_trunc U s V) + weight2 f (rsubmx s) /\
+  frob2 f (svd_trunc U s V) = weight2 f (lsubmx s).
+Proof.
+  exact (fun R f m k d n U s V hU hV =>
+           conj (@trunc_error_sliced R f m k d n U s V hU hV) (@trunc_pythagoras R f m k d n U s V hU hV)).
+Qed.
+Print Assumptions C10_split_error_exact_general.
+
+(* non-vacuity: a 3 x 2 isometry, a 2 x 4 co-isometry, s = (3, 2) over the integers, one value kept: the hypotheses
+   hold, the squared error is 2^2 and the truncation does change the tensor *)
+Example C10_example_split_error :
+  (ex_U^T *m ex_U = 1%:M /\ ex_V *m ex_V^T = 1%:M) /\
+  let A := ex_U *m diag_mx ex_s *m ex_V in
+  let Ak := lsubmx ex_U *m diag_mx (lsubmx ex_s) *m usubmx ex_V in
+  \tr ((A - Ak)^T *m (A - Ak)) = 4 /\ A != Ak.
+Proof. exact (conj (conj ex_U_iso ex_V_iso) ex_error). Qed.
+Print Assumptions C10_example_split_error.
+End C10_error_algebra.
+(* [/ext-C10E] *)
